@@ -1,1 +1,101 @@
-// harnesses
+// Proof harnesses inside `net::channel` (sees `Channel`'s fields).  Property: C16 (TCP probe table), C09.
+use super::*;
+use crate::net::socket::Socket;
+use crate::types::{PacketSize, PayloadPattern, RoundId, Sequence, TimeToLive, TraceId, TypeOfService, Flags};
+use crate::{IcmpExtensionParseMode};
+use std::net::{Ipv4Addr, Ipv6Addr};
+use std::time::UNIX_EPOCH;
+
+mod sock {
+    include!(concat!(env!("TRIPPY_VERIF_HARNESS"), "/sockets.rs"));
+}
+use sock::{sockstate, HSock};
+
+fn on_send(_b: &[u8]) {}
+
+mod clock {
+    use std::time::{Duration, SystemTime, UNIX_EPOCH};
+    pub fn now_stub() -> SystemTime {
+        UNIX_EPOCH + Duration::new(u64::from(kani::any::<u32>()), 0)
+    }
+}
+
+fn any_channel(v6: bool) -> Channel<HSock> {
+    let family_config = if v6 {
+        FamilyConfig::V6(Ipv6 {
+            src_addr: Ipv6Addr::from(kani::any::<u128>()),
+            dest_addr: Ipv6Addr::from(kani::any::<u128>()),
+            packet_size: PacketSize(kani::any()),
+            payload_pattern: PayloadPattern(kani::any()),
+            privilege_mode: PrivilegeMode::Privileged,
+            protocol: Protocol::Tcp,
+            icmp_extension_mode: IcmpExtensionParseMode::Disabled,
+            initial_sequence: Sequence(kani::any()),
+        })
+    } else {
+        FamilyConfig::V4(Ipv4 {
+            src_addr: Ipv4Addr::from(kani::any::<u32>()),
+            dest_addr: Ipv4Addr::from(kani::any::<u32>()),
+            byte_order: platform::Ipv4ByteOrder::Network,
+            packet_size: PacketSize(kani::any()),
+            payload_pattern: PayloadPattern(kani::any()),
+            privilege_mode: PrivilegeMode::Privileged,
+            tos: TypeOfService(kani::any()),
+            protocol: Protocol::Tcp,
+            icmp_extension_mode: IcmpExtensionParseMode::Disabled,
+        })
+    };
+    Channel {
+        protocol: Protocol::Tcp,
+        read_timeout: Duration::ZERO,
+        tcp_connect_timeout: Duration::from_secs(1),
+        send_socket: None,
+        recv_socket: HSock,
+        tcp_probes: ArrayVec::new(),
+        family_config,
+    }
+}
+
+/// `send_probe` for TCP with ANY number 0..=256 of connection attempts still outstanding: returns
+/// (Ok or an error value), never panics; when the table is full the error is a capacity error.
+fn tcp_table_capacity(v6: bool) {
+    let mut ch = any_channel(v6);
+    let n: usize = kani::any();
+    kani::assume(n <= MAX_TCP_PROBES);
+    // n outstanding entries (their contents are never read by send_probe)
+    unsafe { ch.tcp_probes.set_len(n) };
+    let probe = Probe::new(
+        Sequence(kani::any()),
+        TraceId(0),
+        Port(kani::any()),
+        Port(kani::any()),
+        TimeToLive(kani::any()),
+        RoundId(0),
+        UNIX_EPOCH,
+        Flags::empty(),
+    );
+    let r = ch.send_probe(probe);
+    if n == MAX_TCP_PROBES {
+        assert!(matches!(r, Err(Error::InsufficientCapacity)), "full table: capacity error, not a crash");
+        assert!(ch.tcp_probes.len() == n);
+    } else {
+        assert!(r.is_ok() && ch.tcp_probes.len() == n + 1);
+    }
+    kani::cover!(n == MAX_TCP_PROBES, "table full");
+    kani::cover!(n == 0, "table empty");
+    std::mem::forget(ch);
+    std::mem::forget(r);
+}
+
+#[kani::proof]
+#[kani::unwind(3)]
+#[kani::stub(std::time::SystemTime::now, clock::now_stub)]
+fn c16_tcp_probe_table_v4() {
+    tcp_table_capacity(false);
+}
+#[kani::proof]
+#[kani::unwind(3)]
+#[kani::stub(std::time::SystemTime::now, clock::now_stub)]
+fn c16_tcp_probe_table_v6() {
+    tcp_table_capacity(true);
+}
